@@ -262,8 +262,10 @@ func R1Loops(c *Ctx, scope []*ssa.Function, ruleSuffix string) {
 					c.R.Ok(rule, fname, construct, c.pos(s.Pos()), "CanIRead-conditioned: each iteration consumes input (R2-loop-progress)", true)
 				case s.Cond != nil && isRowsNext(pk, s.Cond):
 					c.R.Ok(rule, fname, construct, c.pos(s.Pos()), "iterates a finite database result set", false)
-				case chainWalk(s):
+				case chainWalk(s) || chainWalkBody(s):
 					c.R.Ok(rule, fname, construct, c.pos(s.Pos()), "walk along a pointer chain until nil (x = x.<field>): terminates because the linked structure is acyclic (pivot graph: R9-cycle-guard keeps it a forest)", true)
+				case ioLoop(pk, s):
+					c.R.Ok(rule, fname, construct, c.pos(s.Pos()), "relay loop around a blocking read: every iteration calls a Read/Accept-style function and leaves the loop (return/break) when it fails, i.e. when the peer closes", true)
 				case countedLoop(pk, s):
 					c.R.Ok(rule, fname, construct, c.pos(s.Pos()), "counted loop: the induction variable moves monotonically towards its bound", true)
 				default:
@@ -429,4 +431,225 @@ func chainWalk(s *ast.ForStmt) bool {
 		return true
 	})
 	return !assigned
+}
+
+// chainWalkBody: a loop (any header form) in which some variable v is reassigned only by field selections rooted
+// at v itself (v = v.A.B, v = &v.A.B) and whose condition or an `if … { break/return }` in its body tests a field
+// path rooted at v against nil: a walk along a pointer chain, same termination argument as chainWalk.
+func chainWalkBody(s *ast.ForStmt) bool {
+	rootOf := func(e ast.Expr) (string, int) {
+		depth := 0
+		for {
+			switch x := e.(type) {
+			case *ast.SelectorExpr:
+				e = x.X
+				depth++
+				continue
+			case *ast.UnaryExpr:
+				if x.Op == token.AND {
+					e = x.X
+					continue
+				}
+			case *ast.ParenExpr:
+				e = x.X
+				continue
+			case *ast.StarExpr:
+				e = x.X
+				continue
+			}
+			break
+		}
+		if id, ok := e.(*ast.Ident); ok {
+			return id.Name, depth
+		}
+		return "", 0
+	}
+	// candidate variables: assigned in body/post from a selection rooted at themselves
+	cands := map[string]bool{}
+	bad := map[string]bool{}
+	visitAssign := func(a *ast.AssignStmt) {
+		if len(a.Lhs) != len(a.Rhs) {
+			for _, l := range a.Lhs {
+				if id, ok := l.(*ast.Ident); ok {
+					bad[id.Name] = true
+				}
+			}
+			return
+		}
+		for i, l := range a.Lhs {
+			id, ok := l.(*ast.Ident)
+			if !ok {
+				continue
+			}
+			r, d := rootOf(a.Rhs[i])
+			if r == id.Name && d > 0 && a.Tok == token.ASSIGN {
+				cands[id.Name] = true
+			} else {
+				bad[id.Name] = true
+			}
+		}
+	}
+	ast.Inspect(s.Body, func(n ast.Node) bool {
+		switch x := n.(type) {
+		case *ast.FuncLit:
+			return false
+		case *ast.AssignStmt:
+			visitAssign(x)
+		}
+		return true
+	})
+	if a, ok := s.Post.(*ast.AssignStmt); ok {
+		visitAssign(a)
+	}
+	nilTestOn := func(e ast.Expr) string {
+		be, ok := e.(*ast.BinaryExpr)
+		if !ok || (be.Op != token.NEQ && be.Op != token.EQL) {
+			return ""
+		}
+		if nl, ok := be.Y.(*ast.Ident); !ok || nl.Name != "nil" {
+			return ""
+		}
+		r, _ := rootOf(be.X)
+		return r
+	}
+	for v := range cands {
+		if bad[v] {
+			continue
+		}
+		if s.Cond != nil && nilTestOn(s.Cond) == v {
+			return true
+		}
+		found := false
+		ast.Inspect(s.Body, func(n ast.Node) bool {
+			if _, ok := n.(*ast.FuncLit); ok {
+				return false
+			}
+			ifs, ok := n.(*ast.IfStmt)
+			if !ok || nilTestOn(ifs.Cond) != v {
+				return true
+			}
+			ast.Inspect(ifs.Body, func(m ast.Node) bool {
+				switch y := m.(type) {
+				case *ast.BranchStmt:
+					if y.Tok == token.BREAK {
+						found = true
+					}
+				case *ast.ReturnStmt:
+					found = true
+				}
+				return true
+			})
+			return true
+		})
+		if found {
+			return true
+		}
+	}
+	return false
+}
+
+// ioLoop: `for { … }` whose body calls a blocking Read/Accept-style function returning an error, and on the
+// branch where that error is non-nil the loop is left (return, or break of this loop).
+func ioLoop(pk *packages.Package, s *ast.ForStmt) bool {
+	if s.Cond != nil {
+		return false
+	}
+	blocking := func(call *ast.CallExpr) bool {
+		fn := Callee(pk.TypesInfo, call)
+		name := ""
+		if fn != nil {
+			name = fn.Name()
+		} else if sel, ok := call.Fun.(*ast.SelectorExpr); ok {
+			name = sel.Sel.Name
+		}
+		if !(strings.Contains(name, "Read") || strings.Contains(name, "Accept") || strings.Contains(name, "Recv")) {
+			return false
+		}
+		if sig, ok := pk.TypesInfo.TypeOf(call.Fun).(*types.Signature); ok && sig.Results().Len() > 0 {
+			last := sig.Results().At(sig.Results().Len() - 1).Type()
+			return last.String() == "error"
+		}
+		return false
+	}
+	// err identifiers assigned from blocking calls in the body
+	errs := map[types.Object]bool{}
+	ast.Inspect(s.Body, func(n ast.Node) bool {
+		if _, ok := n.(*ast.FuncLit); ok {
+			return false
+		}
+		as, ok := n.(*ast.AssignStmt)
+		if !ok || len(as.Rhs) != 1 {
+			return true
+		}
+		call, ok := as.Rhs[0].(*ast.CallExpr)
+		if !ok || !blocking(call) {
+			return true
+		}
+		if id, ok := as.Lhs[len(as.Lhs)-1].(*ast.Ident); ok {
+			if o := pk.TypesInfo.ObjectOf(id); o != nil {
+				errs[o] = true
+			}
+		}
+		return true
+	})
+	if len(errs) == 0 {
+		return false
+	}
+	leaves := func(body *ast.BlockStmt) bool {
+		out := false
+		ast.Inspect(body, func(m ast.Node) bool {
+			switch y := m.(type) {
+			case *ast.FuncLit:
+				return false
+			case *ast.ForStmt, *ast.RangeStmt, *ast.SwitchStmt, *ast.SelectStmt, *ast.TypeSwitchStmt:
+				// a break in here would leave the inner statement, not our loop; a return still counts
+				ast.Inspect(y, func(k ast.Node) bool {
+					if _, ok := k.(*ast.ReturnStmt); ok {
+						out = true
+					}
+					return true
+				})
+				return false
+			case *ast.BranchStmt:
+				if y.Tok == token.BREAK || y.Tok == token.GOTO {
+					out = true
+				}
+			case *ast.ReturnStmt:
+				out = true
+			}
+			return true
+		})
+		return out
+	}
+	ok := false
+	ast.Inspect(s.Body, func(n ast.Node) bool {
+		if _, isLit := n.(*ast.FuncLit); isLit {
+			return false
+		}
+		ifs, isIf := n.(*ast.IfStmt)
+		if !isIf {
+			return true
+		}
+		be, isBin := ifs.Cond.(*ast.BinaryExpr)
+		if !isBin {
+			return true
+		}
+		id, isID := be.X.(*ast.Ident)
+		nl, isNil := be.Y.(*ast.Ident)
+		if !isID || !isNil || nl.Name != "nil" || !errs[pk.TypesInfo.ObjectOf(id)] {
+			return true
+		}
+		switch be.Op {
+		case token.NEQ:
+			if leaves(ifs.Body) {
+				ok = true
+			}
+		case token.EQL:
+			if eb, isBlock := ifs.Else.(*ast.BlockStmt); isBlock && leaves(eb) {
+				ok = true
+			}
+		}
+		return true
+	})
+	return ok
 }
